@@ -58,6 +58,8 @@ func runSpec(spec Spec) (res Result, timing [3]time.Duration) {
 			e.opRegRelayer(op)
 		case "create_client":
 			e.opCreateClient(op)
+		case "toggle_client", "upgrade_client":
+			e.opGovClient(op, op.K)
 		default:
 			e.stat("op.skipped_unknown_kind")
 		}
